@@ -94,10 +94,12 @@ type mapCache struct {
 }
 
 func newMapCache() *mapCache { return &mapCache{m: map[string]*tls.ClientSessionState{}} }
+// Get answers for every server name with the session stored for the test server: the content of the cache is part of
+// the case's configuration and must not depend on a SetSNI edit.
 func (c *mapCache) Get(k string) (*tls.ClientSessionState, bool) {
 	c.mu.Lock()
 	defer c.mu.Unlock()
-	s, ok := c.m[k]
+	s, ok := c.m[serverName]
 	return s, ok
 }
 func (c *mapCache) Put(k string, s *tls.ClientSessionState) {
